@@ -128,6 +128,8 @@ class ReddeningLaw(BaseUnitlessSpectrum):
             bkeys['expr'] = (self.meta['expr'], 'synphot expression')
 
         if 'ext_header' in kwargs:
+            # Add the keywords to a copy, not to the caller's dictionary
+            kwargs['ext_header'] = kwargs['ext_header'].copy()
             kwargs['ext_header'].update(bkeys)
         else:
             kwargs['ext_header'] = bkeys
